@@ -23,10 +23,13 @@ let txhist : (int * int, txrec) Hashtbl.t = Hashtbl.create 64
 type isl = { i_id : int; i_tries : int; i_exp : int; i_h : string }
 let impl_prev : (int, int * int * isl list) Hashtbl.t = Hashtbl.create 8
 let impl_prev_cl : (int, (int * string) list) Hashtbl.t = Hashtbl.create 8
+(* C10 runtime spec: what the implementation's duplicate cache remembers, (client, id) -> record *)
+type duprec = { d_h : string; d_pkt : string; d_created : int; mutable d_reply : string option }
+let dupcache : (int * int, duprec) Hashtbl.t = Hashtbl.create 64
 let pending_reset : (int, unit) Hashtbl.t = Hashtbl.create 8
 
 let reset () =
-  Hashtbl.reset txhist; Hashtbl.reset impl_prev; Hashtbl.reset pending_reset; Hashtbl.reset impl_prev_cl;
+  Hashtbl.reset txhist; Hashtbl.reset impl_prev; Hashtbl.reset pending_reset; Hashtbl.reset impl_prev_cl; Hashtbl.reset dupcache;
   options := opt_default; clients := []; servers := []; realms := []; st := None; Hashtbl.reset display; diverged := false
 
 let b01 s = (s = "1")
@@ -258,6 +261,57 @@ let check_no_displace opidx impl_all c (_pkt : n list) =
            | None -> ())
       | None -> ()) (impl_events impl_all "srv")
 
+(* C10 on the implementation's observations at a client packet *)
+let check_dup opidx impl_all c now (pkthex : string) =
+  let pkthex = String.lowercase_ascii pkthex in
+  let id = if String.length pkthex >= 4 then int_of_string ("0x" ^ String.sub pkthex 2 2) else -1 in
+  let pre = match Hashtbl.find_opt impl_prev_cl c with Some l -> l | None -> [] in
+  let post = match List.find_map (fun t -> match parse_impl_cl t with Some (c', l) when c' = c -> Some l | _ -> None) (impl_events impl_all "cl") with
+    | Some l -> l | None -> [] in
+  let enqs = impl_events impl_all "enq" and replies = impl_events impl_all "reply" in
+  let dupint = match List.assoc_opt c !clients with Some cc -> int_of_n cc.cc_dupint | None -> 0 in
+  (* an entry is trusted only while the implementation's cache still holds the same request under that id *)
+  (match Hashtbl.find_opt dupcache (c, id) with
+   | Some d when List.assoc_opt id pre <> Some d.d_h -> Hashtbl.remove dupcache (c, id)
+   | _ -> ());
+  (match Hashtbl.find_opt dupcache (c, id) with
+   | Some d when d.d_pkt = pkthex && now - d.d_created < dupint ->
+       spec opidx "C10_dup_not_forwarded" (enqs = []) (Printf.sprintf "client %d id %d repeated after %d s (interval %d)" c id (now - d.d_created) dupint);
+       (match d.d_reply with
+        | Some b -> spec opidx "C10_replay_same_bytes" (replies = [ [ string_of_int c; b ] ])
+                      (Printf.sprintf "client %d id %d: %d replies" c id (List.length replies))
+        | None -> spec opidx "C10_dup_ignored" (replies = []) (Printf.sprintf "client %d id %d" c id))
+   | dopt ->
+       (match dopt with
+        | Some d when d.d_pkt = pkthex ->
+            (* same bytes at or after the interval, counted from the receipt of the remembered request: treated as new *)
+            spec opidx "C10_after_interval_new" (List.assoc_opt id post <> Some d.d_h)
+              (Printf.sprintf "client %d id %d repeated after %d s (interval %d) still answered from the cache" c id (now - d.d_created) dupint)
+        | _ -> ());
+       (match List.assoc_opt id pre, List.assoc_opt id post with
+        | old, Some hn when old <> Some hn ->
+            (* registered as new; a superseded request no longer sits in any server's table *)
+            (match old with
+             | Some ho ->
+                 List.iter (fun t -> match parse_impl_srv t with
+                     | Some (sv, (_, _, slots)) ->
+                         spec opidx "C10_superseded_cancelled" (not (List.exists (fun q -> q.i_h = ho) slots))
+                           (Printf.sprintf "client %d id %d: old request %s still outstanding at server %d" c id ho sv)
+                     | None -> ()) (impl_events impl_all "srv")
+             | None -> ());
+            Hashtbl.replace dupcache (c, id) { d_h = hn; d_pkt = pkthex; d_created = now; d_reply = None }
+        | _ -> ()))
+
+(* replies the implementation delivers, remembered for the replay check *)
+let note_replies impl_all =
+  List.iter (function
+      | [ cl; p ] when String.length p >= 4 ->
+          let c = int_of_string cl and id = int_of_string ("0x" ^ String.sub p 2 2) in
+          (match Hashtbl.find_opt dupcache (c, id) with
+           | Some d when d.d_reply = None -> d.d_reply <- Some p
+           | _ -> ())
+      | _ -> ()) (impl_events impl_all "reply")
+
 let remember_impl impl_all =
   List.iter (fun t -> match parse_impl_cl t with Some (c, x) -> Hashtbl.replace impl_prev_cl c x | None -> ()) (impl_events impl_all "cl");
   List.iter (fun t -> match parse_impl_srv t with Some (sv, x) -> Hashtbl.replace impl_prev sv x | None -> ()) (impl_events impl_all "srv")
@@ -299,6 +353,7 @@ let op_cpkt opidx impl_all toks =
        List.iter (function [ sv; _; p ] -> check_request_out opidx (int_of_string sv) (bytes_of_hex p) | _ -> ()) (impl_events impl_all "enq"));
       note_enq impl_all;
       check_no_displace opidx impl_all c (bytes_of_hex pkt);
+      check_dup opidx impl_all c (int_of_string now) pkt;
       let rq = { rq_created = z_of_int (int_of_string now); rq_refcount = n_of_int 1; rq_buf = Some (bytes_of_hex pkt); rq_replybuf = None;
                  rq_msg = None; rq_from = Some (nat_of_int c); rq_to = None; rq_origuser = None; rq_rqid = N0;
                  rq_rqauth = repeat N0 16; rq_newid = N0 } in
@@ -497,5 +552,5 @@ let run_op (opidx : int) (impl_all : string list list) (toks : string list) : bo
 
 let run (opidx : int) (impl_all : string list list) (toks : string list) : bool =
   let r = run_op opidx impl_all toks in
-  if r then check_slots opidx impl_all;
+  if r then (check_slots opidx impl_all; note_replies impl_all);
   remember_impl impl_all; r
